@@ -2,4 +2,5 @@ package compiler
 
 var zzRegistry = map[string]func(int){
 	"ZZ_C12Alloc": ZZ_C12Alloc,
+	"ZZ_C12Err": ZZ_C12Err,
 }
